@@ -120,6 +120,23 @@ def adoption_docs(tier):
     return out
 
 
+def adoption_table_docs():
+    """the adoption agency run from the table insertion modes (foster parenting on), where the foster parent is the table's
+    parent, template contents, or - in fragments / templates without a table on the stack - the html root or the template:
+    (options, text)"""
+    shapes = ["<b><p>x</b>y", "<b><i><p>x</b>y", "<a><div>x<a>y", "<b><span><p>x</b>y", "<b><i><u><s><p>x</b>y", "<nobr><div><nobr>x",
+              "<b>t<p>x</b>y</p>z", "<i><b><div>x</i>y</b>z", "<b><p>x<table><td></b>y", "<a><p>x</a><a>y</a>"]
+    pres = ["<table>", "<table><tr>", "<table><tbody>", "<table><thead><tr>", "<template><tr>", "<template><table><tr>",
+            "<template><tbody>", "<template><td>", "<template><caption>", "<template><colgroup>", "<template><table>",
+            "<div><table><tr>", "<table><caption>", "<table><tr><td><table><tr>", "<template><template><tr>", "<b><table><tr>"]
+    out = [("-", p_ + sh) for p_ in pres for sh in shapes]
+    for cx in ("tbody", "tr", "table", "thead", "tfoot", "template", "caption", "td", "colgroup", "select", "html", "body"):
+        for sh in shapes:
+            for p_ in ("", "<tr>", "<tbody>", "<td>", "<table><tr>"):
+                out.append(("frag=" + hx(cx), p_ + sh))
+    return out
+
+
 XMLNS_URI = "http://www.w3.org/XML/1998/namespace"
 
 
@@ -170,6 +187,9 @@ def harvest(tier, rng):
         lines.append("rcdom\tparse-html\t-\t" + hx(s))
         # quick: the deepest layer is monitored on the real parser only (its traces are not replayed on the model)
         tags.append("adoption-deep" if (tier == "quick" and s.count("<") > 6) else "adoption")
+    for o, s in adoption_table_docs():
+        lines.append("rcdom\tparse-html\t%s\t%s" % (o, hx(s)))
+        tags.append("adoption-table")
     for s in xml_alias_docs():
         lines.append("rcdom\tparse-xml\t-\t" + hx(s))
         tags.append("xml-alias")
